@@ -93,8 +93,13 @@ def record_programs(seed, n_programs):
         if h.bin_count > 40:
             skipped += 1      # thousands of bins add nothing for the model and only slow TLC down
             continue
-        steps = [("construct", cdata, wts or [1] * len(cdata), None, snapshot(h))]
         edges = np.asarray(h.bins, dtype=float)
+        if len(edges) > 1 and (edges[1:, 0] != edges[:-1, 1]).any() and np.allclose(edges[1:, 0], edges[:-1, 1], 1.0e-5, 1.0e-8):
+            # gaps below numpy.allclose's tolerance: the known finding C01-subtolerance-gap-construct (engine R reports it); a
+            # rejected trace could not be told apart from it, so these programs are left to engine R
+            skipped += 1
+            continue
+        steps = [("construct", cdata, wts or [1] * len(cdata), None, snapshot(h))]
         for _ in range(rng.randrange(0, 4)):
             pool = list(data) + edges.ravel().tolist() + [math.nextafter(float(e), math.inf) for e in edges.ravel()[:2]] + \
                 [min(data) - 1.0, max(data) + 1.0]
@@ -164,28 +169,38 @@ def run_part(ctx, tier, seed_offset=11):
         ctx.add_violation({"property": ctx.prop, "spec": "TraceHist1D", "action": r["call"], "tag": f"T1/{r['call']}/raised", "fields": ["accepted"],
                            "detail": {"raised": r["raised"]}, "call": r})
     events, meta = abstract(programs)
-    sc = scratch_dir(ctx.prop + "T1")
-    path = os.path.join(sc, "trace.ndjson")
-    with open(path, "w") as f:
-        for ev in events:
-            f.write(json.dumps(ev) + "\n")
-    res = run_tlc("TraceHist1D", workers=1, env={"TRACE_FILE": path}, coverage=False, scratch=sc, timeout=2500)
-    matched = res.depth - 1
-    ctx.states += res.distinct
-    ctx.transitions += res.generated
-    ctx.tlc_runs.append({"module": "TraceHist1D", "events": len(events), "matched": matched, "ok": res.ok, "wall_s": round(res.wall_s, 1)})
-    ctx.extra["trace_validation_hist1d"] = {"programs_recorded": len(programs), "refused_constructions_skipped": skipped, "events": len(events),
-                                            "events_matched_by_spec": matched}
-    ctx.traces += len(programs) if matched == len(events) else sum(1 for m in meta[:matched] if m["call"] == "construct")
-    for m in meta[:matched]:
-        key = f"T1/{m['call']}/{m['method']}"
-        ctx.tags[key] = ctx.tags.get(key, 0) + 1
-    if meta and len(ctx.samples) < 14:
-        ctx.samples.append({"recorded_call": meta[min(3, len(meta) - 1)]})
-    if not res.ok:
+    total_events, total_matched, rounds = len(events), 0, 0
+    while True:
+        rounds += 1
+        sc = scratch_dir(ctx.prop + "T1")
+        path = os.path.join(sc, "trace.ndjson")
+        with open(path, "w") as f:
+            for ev in events:
+                f.write(json.dumps(ev) + "\n")
+        res = run_tlc("TraceHist1D", workers=1, env={"TRACE_FILE": path}, coverage=False, scratch=sc, timeout=2500)
         shutil.rmtree(sc, ignore_errors=True)
-        raise MachineryError("TraceHist1D: TLC reports an invariant violation on a recorded trace:\n" + res.stdout[-1500:])
-    if matched < len(events):
+        matched = res.depth - 1
+        ctx.states += res.distinct
+        ctx.transitions += res.generated
+        ctx.tlc_runs.append({"module": "TraceHist1D", "events": len(events), "matched": matched, "ok": res.ok, "wall_s": round(res.wall_s, 1)})
+        if not res.ok:
+            raise MachineryError("TraceHist1D: TLC reports an invariant violation on a recorded trace:\n" + res.stdout[-1500:])
+        for m in meta[:matched]:
+            key = f"T1/{m['call']}/{m['method']}"
+            ctx.tags[key] = ctx.tags.get(key, 0) + 1
+        total_matched += matched
+        ctx.traces += len({m["program"] for m in meta[:matched]})
+        if matched >= len(events):
+            break
+        # a rejected event: report it, drop the rest of that program and validate the programs after it as well
         ctx.add_violation({"property": ctx.prop, "spec": "TraceHist1D", "action": events[matched]["op"], "tag": f"T1/{events[matched]['op']}/rejected",
                            "fields": ["trace"], "detail": {"rejected_event": events[matched]}, "call": meta[matched]})
-    shutil.rmtree(sc, ignore_errors=True)
+        bad_prog = meta[matched]["program"]
+        rest = [(e, m) for e, m in zip(events[matched:], meta[matched:]) if m["program"] != bad_prog]
+        if not rest or rounds >= 6:
+            break
+        events, meta = [e for e, _m in rest], [m for _e, m in rest]
+    if meta and len(ctx.samples) < 14:
+        ctx.samples.append({"recorded_call": meta[min(3, len(meta) - 1)]})
+    ctx.extra["trace_validation_hist1d"] = {"programs_recorded": len(programs), "refused_constructions_skipped": skipped, "events": total_events,
+                                            "events_matched_by_spec": total_matched, "validation_rounds": rounds}
